@@ -353,6 +353,10 @@ func (s *vSched) gateEnabled(a *vActor) bool {
 			m := (*manager)(g.obj)
 			return atomic.LoadInt32(&m.status) != managerInitializing
 		}
+	case vpPollWait:
+		if g.a == -1 { // epoll_wait without timeout returns only when the kernel has something
+			return vEpollHasEvents((*defaultPoll)(g.obj).fd)
+		}
 	case vpPdWait:
 		pd := (*pollDesc)(g.obj)
 		return vPdReady(pd, g.a)
